@@ -56,6 +56,7 @@ func pnUnesc(s string) string {
 	for _, f := range []string{"zq%C3%A9s", "zq%c3%a9s", "zq\u00e9s"} {
 		s = strings.Replace(s, f, "zqs", 1)
 	}
+	s = strings.Replace(strings.Replace(s, "://zquser:pw@", "://", 1), "://zquser@", "://", 1)
 	return s
 }
 
@@ -247,6 +248,30 @@ func runPN(c Case, e *env) []Event {
 	pager := `<div>` + strings.Join(parts, pickS(r, " ", " | ", "\n")) + `</div>`
 	page := pagerPage(g, pager)
 	pageURL := pnString(p.Doc, fam)
+	if pageURL != "" && !pnEsc {
+		// the page URL as a browser hands it over: sometimes with a fragment, sometimes with user info
+		// (user info only where every link of the pager is absolute: a relative link inherits it, and whether the
+		// credentials belong to the "normalised target" of such a link is not something the property says)
+		allAbs := true
+		for _, part := range parts {
+			if strings.Contains(part, `href="/`) || strings.Contains(part, `href="?`) {
+				allAbs = false
+			}
+		}
+		switch (c.ID + int(e.seed)) % 8 {
+		case 1:
+			pageURL += "#comments"
+		case 2:
+			if allAbs {
+				pageURL = strings.Replace(pageURL, "https://", "https://zquser@", 1)
+			}
+		case 3:
+			pageURL += "#top"
+			if allAbs {
+				pageURL = strings.Replace(pageURL, "https://", "https://zquser:pw@", 1)
+			}
+		}
+	}
 	if pageURL == "" {
 		return []Event{{"ev": "Skip", "run": c.ID, "why": "no page url"}}
 	}
